@@ -372,6 +372,25 @@ def windowsTailNts (r : Rx) : Option Windows :=
     inserted in front of a copy of the header and the authentic payload `p` -/
 def reframed (pre h f p : Bytes) : Rx := ⟨pre, h ++ (f ++ (h ++ p))⟩
 
+/-! ### the listener (core/server/server_scion.go runSCIONServer) -/
+
+/-- The byte strings the SCION listener hands to `ntp.DecodePacket`, to `nts.DecodePacket` /
+    `nts.ProcessRequest`, and as `Pld` into the MAC of the REQUEST's packet authenticator — as
+    repaired: what the UDP layer decoded. -/
+def srvWindows (r : Rx) : Option Windows := windows r
+
+/-- before the `fix:` commit: the request MAC over the last `Length` bytes of the buffer -/
+def srvWindowsOld (r : Rx) : Option Windows := windowsOld r
+
+/-- The reply: the listener serialises the payload, then the UDP header in front of it with
+    `FixLengths` (length field := 8 + |payload|, bytes 4 and 5 of the header), computes the reply
+    authenticator's MAC over `buffer.Bytes()` at that point, and then puts the end-to-end extension
+    and the SCION header (`pre`) in front. Result: the L4 bytes on the wire and the bytes MAC'ed. -/
+def srvReply (sp dp cs : Nat × Nat) (payload : Bytes) : Bytes × Bytes :=
+  let len := 8 + payload.length
+  let l4 := [sp.1, sp.2, dp.1, dp.2, len / 256 % 256, len % 256, cs.1, cs.2] ++ payload
+  (l4, l4)
+
 /-! ## (e) cookie flow of one exchange -/
 
 /-- what one call of `measureClockOffsetIP` / `…SCION` with NTS does to the fetcher's pool,
